@@ -27,6 +27,12 @@ class Path:
         return 'Path(%s -> %r)' % (self.backend, self.target)
 
 
+def _kwargs_of(f, call):
+    """keyword arguments of a call; `**opts` of a local `dict(a=.., b=..)` / dict literal is spelled out"""
+    from .dasksites import _keywords
+    return _keywords(f, call)
+
+
 def calls_in(prog, f):
     """(call node, resolved target) for every call in f's own body."""
     out = []
@@ -125,8 +131,7 @@ def _backend_paths(prog, f):
                 t = t.table
                 for slot, expr in t.entries.items():
                     tgt = prog.resolve_callable(t.scope, f.module, expr)
-                    paths.append(Path(SLOTS.get(slot, slot), tgt, n, list(n.args),
-                                      {k.arg: k.value for k in n.keywords if k.arg}, f))
+                    paths.append(Path(SLOTS.get(slot, slot), tgt, n, list(n.args), _kwargs_of(f, n), f))
     # isinstance chains
     for n in f.own_nodes():
         if isinstance(n, ast.If):
@@ -143,8 +148,7 @@ def _backend_paths(prog, f):
                         if isinstance(c, ast.Call):
                             tgt = prog.resolve_callable(f, f.module, c.func)
                             if isinstance(tgt, (Func, Partial)):
-                                paths.append(Path(b, tgt, c, list(c.args),
-                                                  {k.arg: k.value for k in c.keywords if k.arg}, f))
+                                paths.append(Path(b, tgt, c, list(c.args), _kwargs_of(f, c), f))
     return paths
 
 
@@ -169,6 +173,34 @@ def bind_call(f, args, keywords, partial_chain=()):
     for k, v in keywords.items():
         bind[k] = v
     return bind
+
+
+def splice_starred(prog, f, args):
+    """positional actuals with `*name` spelled out where `name` holds a tuple of known components: a tuple literal, or what
+    a package helper returns when its single `return` is a tuple of its own parameters (`coeffs = _validate(a, b, c1=c1)`
+    returning `(c1, ...)`: the components are the actual arguments of that call).  Unknown `*x` are kept as they are."""
+    out = []
+    for a in args:
+        if not isinstance(a, ast.Starred):
+            out.append(a)
+            continue
+        v = local_value(f, a.value)
+        if isinstance(v, (ast.Tuple, ast.List)):
+            out.extend(v.elts)
+            continue
+        if isinstance(v, ast.Call):
+            g = prog.resolve_callable(f, f.module, v.func)
+            if isinstance(g, Func) and not g.is_lambda and not any(isinstance(x, ast.Starred) for x in v.args):
+                rets = [r for r in g.own_nodes() if isinstance(r, ast.Return)]
+                if len(rets) == 1 and isinstance(rets[0].value, ast.Tuple) and all(isinstance(x, ast.Name) and x.id in g.params for x in rets[0].value.elts) \
+                        and not any(isinstance(n, ast.Name) and isinstance(n.ctx, ast.Store) and n.id in g.params for n in g.own_nodes()):
+                    b = dict(zip(g.params, v.args))
+                    b.update({k.arg: k.value for k in v.keywords if k.arg})
+                    if all(x.id in b for x in rets[0].value.elts):
+                        out.extend(b[x.id] for x in rets[0].value.elts)
+                        continue
+        out.append(a)
+    return out
 
 
 def local_value(f, e, depth=0):
